@@ -159,6 +159,7 @@ class Retrieve:
         self._status.set_size(datalength)
         self._status.set_encoding(k, N)
         self.readers = {}
+        self._readers_by_server = {} # maps (shnum, server) to reader
         self._stopped = False
         self._pause_deferred = None
         self._offset = None
@@ -319,6 +320,7 @@ class Retrieve:
                                            self._storage_index, shnum, None)
             reader.server = server
             self.readers[shnum] = reader
+            self._readers_by_server[(shnum, server)] = reader
 
         if len(self.remaining_sharemap) < k:
             self._raise_notenoughshareserror()
@@ -511,6 +513,16 @@ class Retrieve:
         self.log("adding %d new servers to the active list" % len(new_shnums))
         for shnum in new_shnums:
             reader = self.readers[shnum]
+            if reader.server not in self.remaining_sharemap[shnum]:
+                # The same share number can live on several servers. The
+                # copy this reader points at has been marked bad (its
+                # server was removed from remaining_sharemap), so use the
+                # copy on one of the servers that are still eligible
+                # instead of activating the bad reader again and again.
+                server = sorted(self.remaining_sharemap[shnum],
+                                key=lambda s: s.get_serverid())[0]
+                reader = self._readers_by_server[(shnum, server)]
+                self.readers[shnum] = reader
             self._active_readers.append(reader)
             self.log("added reader for share %d" % shnum)
             # Each time we add a reader, we check to see if we need the
